@@ -103,7 +103,8 @@ type simIn struct {
 // what the child reports for one spec
 type obsTask struct {
 	Desc   int         `json:"desc"`
-	Dyn    [][2]uint64 `json:"dyn"` // (channel code, port) in merged channel order
+	Dyn    [][2]uint64 `json:"dyn"` // (channel code, port): all TCP endpoints of the bind map
+	Ipc    []uint64    `json:"ipc,omitempty"` // channel codes bound to an IPC endpoint
 	Handed *uint64     `json:"handed,omitempty"`
 	Req    [][2]uint64 `json:"req"`
 	Cpu    int64       `json:"cpu"`
@@ -514,7 +515,7 @@ func caseFromSim(sp simSpec, in simIn, ob simObs) []gen.Case {
 					if t.Handed != nil {
 						h = fmt.Sprintf("(Some %d)", *t.Handed)
 					}
-					ts[j] = fmt.Sprintf("(mkOT %d %s %s %s %d %d %s)", t.Desc, gen.List(dyn), h, rangesTerm(t.Req), t.Cpu, t.Mem, gen.Bool(t.Reuse))
+					ts[j] = fmt.Sprintf("(mkOT %d %s %s %s %s %d %d %s)", t.Desc, gen.List(dyn), gen.NList(t.Ipc), h, rangesTerm(t.Req), t.Cpu, t.Mem, gen.Bool(t.Reuse))
 				}
 				acc[i] = "(Some " + gen.List(ts) + ")"
 			}
